@@ -94,6 +94,22 @@ Theorem C04_case_order_irrelevant : forall conv fails i i' env words,
   dispatch conv fails i env words = dispatch conv fails i' env words.
 Proof. exact case_order_irrelevant. Qed.
 
+(* how the program was started - its file name / os.Args[0], -v or MAGEFILE_VERBOSE, MAGEFILE_DEBUG,
+   -t or MAGEFILE_TIMEOUT - changes neither the bodies run, nor the values they receive, nor how
+   the run ends: the outcome of the whole generated main ([main], which also transcribes the
+   verbose logging) is [dispatch] of the words, so every theorem above is about it *)
+Theorem C04_main_is_dispatch : forall conv fails m i env words,
+  fst (main conv fails m i env words) = dispatch conv fails i env words.
+Proof. exact main_outcome. Qed.
+
+Theorem C04_mode_flags_irrelevant : forall conv fails m m' i env words,
+  fst (main conv fails m i env words) = fst (main conv fails m' i env words).
+Proof. exact mode_flags_irrelevant. Qed.
+
+Theorem C04_quiet_without_verbose : forall conv fails m i env words, m_verbose m = false ->
+  snd (main conv fails m i env words) = [].
+Proof. exact quiet_without_verbose. Qed.
+
 Print Assumptions C04_dispatch_is_Seg.
 Print Assumptions C04_Seg_functional.
 Print Assumptions C04_runs_left_to_right.
@@ -104,6 +120,9 @@ Print Assumptions C04_nothing_after_failure.
 Print Assumptions C04_default.
 Print Assumptions C04_never_out_of_fuel.
 Print Assumptions C04_case_order_irrelevant.
+Print Assumptions C04_main_is_dispatch.
+Print Assumptions C04_mode_flags_irrelevant.
+Print Assumptions C04_quiet_without_verbose.
 
 (* non-vacuity: a collision-free instance with a plain, a namespaced, two imported (alias:target,
    alias:ns:target) targets, an alias and a default; good mentions, a stopping word, and runs *)
